@@ -22,12 +22,18 @@ Inductive result :=
 | RErrCanceled      (* f returned an error that Is context.Canceled *)
 | RErrNoRetry       (* f returned an error that As ErrNoRetry *)
 | RCtxCanceled      (* ctx.Done() won the select: context.Canceled *)
-| RGiveUpNil        (* "final attempt; giving up": returns nil *)
+| RGiveUp           (* "final attempt; giving up": returns the last error (before 9155753: nil) *)
 | RLoopExit         (* loop condition false at the top: returns the last error *)
 | RPending.         (* input exhausted: still retrying *)
 Definition result_code (r : result) : Z :=
   match r with RNil => 0 | RErrCanceled => 1 | RErrNoRetry => 2 | RCtxCanceled => 3
-             | RGiveUpNil => 4 | RLoopExit => 5 | RPending => 6 end.
+             | RGiveUp => 4 | RLoopExit => 5 | RPending => 6 end.
+
+(** does the caller see nil?  [fixed = false]: the code before 9155753, where giving up
+    after the horizon returned nil *)
+Definition returns_nil_gen (fixed : bool) (r : result) : bool :=
+  match r with RNil => true | RGiveUp => negb fixed | _ => false end.
+Definition returns_nil : result -> bool := returns_nil_gen true.
 
 Record attempt := Att {
   a_no : Z;        (* value of the AttemptsCtxKey counter the call sees *)
@@ -70,7 +76,7 @@ Fixpoint retry_loop (iv : list Z) (maxd : Z) (cancel : option Z) (pick0 : bool)
             if t' <? maxd then
               let '(l, r, te) := retry_loop iv maxd cancel pick0 rest t' (next_idx iv idx) (k + 1) in
               (a :: l, r, te)
-            else ([a], RGiveUpNil, t')
+            else ([a], RGiveUp, t')
         end
   end.
 
@@ -233,4 +239,27 @@ Section TestCA.
         | _ => ([d1], IErr)
         end
     end.
+
+  (** the asynchronous obtain: doWithRetry around Issue.  [outs] are the outcomes of the
+      successive orders (whichever CA they go to); attempt [k] consumes one or two of them.
+      Returns every directory ordered from, in order, and the final result ([IErr]: the input
+      is exhausted, still retrying). *)
+  Fixpoint obtain_async (fuel : nat) (ca testca : str) (k : Z) (outs : list order_outcome) : list str * issue_result :=
+    match fuel, outs with
+    | O, _ => ([], IErr)
+    | _, [] => ([], IErr)
+    | S f, _ =>
+        let (ds, r) := issue ca testca k outs in
+        match r with
+        | IErr => let (ds', r') := obtain_async f ca testca (k + 1) (skipn (length ds) outs) in (ds ++ ds', r')
+        | _ => (ds, r)
+        end
+    end.
 End TestCA.
+
+(** secureCAURL's scheme rule (acmeclient.go): "https://" is assumed when the URL contains no
+    "://"; the two literals are parameters (translated from the source) *)
+Fixpoint contains (p s : str) : bool :=
+  has_prefix p s || match s with [] => false | _ :: r => contains p r end.
+Definition norm_url (sep prefix : str) (ca : str) : str :=
+  if contains sep ca then ca else prefix ++ ca.
